@@ -14,7 +14,7 @@ ASSUMPTIONS = ['breakable space = a space outside code spans, inline link destin
                'words of the generated prose cannot be mistaken for block markers at the start of a line (the property\'s domain)']
 
 ITEMS = ['ab', 'abcdefghijklmnopqrstuvwxyz0123456789', '*em ph*', '**st rong**', '`co de`', '[li nk](/u "ti tle")',
-         '![im g](/i)', '<http://x.y/z>', '[re f][r]', 'p  \nq', 'p\\\nq']
+         '![im g](/i)', '<http://x.y/z>', '[re f][r]', 'p  \nq', 'p\\\nq', "<b\nclass='k'\nid='i'>"]
 SUB = [0, 1, 2, 5, 9]
 REFDEF = '[r]: /d "D"'
 BYSTANDERS = {
